@@ -2232,9 +2232,9 @@ class Array(DaskMethodsMixin):
         --------
         dask.array.dot : equivalent function
         """
-        from dask.array.routines import tensordot
+        from dask.array.routines import dot
 
-        return tensordot(self, other, axes=((self.ndim - 1,), (other.ndim - 2,)))
+        return dot(self, other)
 
     @property
     def A(self):
